@@ -382,6 +382,7 @@ def body(chk):
   gens = [dict(Kinds={'box'}, MaxCalls=4 if thorough else 3, MaxObjs=1, AllowShutdown=True),
           dict(Kinds={'iter', 'cnt'}, MaxCalls=5, MaxObjs=2, AllowShutdown=False),
           dict(Kinds={'list'}, MaxCalls=5, MaxObjs=2, AllowShutdown=False),
+          dict(Kinds={'nil', 'cnt'}, MaxCalls=4, MaxObjs=2, AllowShutdown=False),
           dict(Kinds={'iter'}, MaxCalls=4, MaxObjs=1, AllowShutdown=True)]
   rnd = random.Random(chk.seed)
   for g in gens:
@@ -435,7 +436,7 @@ def body(chk):
     if h:
       chk.violation('spanning:hang', 'the gated evaluation never returned', dict(kind='remote-trace', trace=tr))
     traces.append(tr)
-  tconsts = dict(Clients={'c1', 'c2', 'c3'}, L=l, MaxCalls=40, MaxObjs=40, Kinds={'iter', 'cnt', 'box', 'list'}, AllowShutdown=True)
+  tconsts = dict(Clients={'c1', 'c2', 'c3'}, L=l, MaxCalls=40, MaxObjs=40, Kinds={'iter', 'cnt', 'box', 'list', 'nil'}, AllowShutdown=True)
   accepted, rejected, res = tracecheck.validate('remote', 'Trace_Remote', traces, tconsts, invariants=INVS)
   chk.add_tlc(res, 'Trace_Remote')
   chk.count('traces_validated', len(traces))
